@@ -53,6 +53,8 @@ static void h_run_case(hcase_t* c) {
   rt_reg((void*)&ch->high, 8, 515, 8);
   rt_reg((void*)&ch->low, 8, 519, 8);
   rt_reg(ch->buffer, sizeof(void*) << p2, 501, 2);
+  rt_reg_rest(&sig, sizeof sig, 13900);   /* search mode only: fields the model does not know */
+  rt_reg_rest(ch, sizeof *ch + (sizeof(void*) << p2), 14900);
   t1_run(n, prog, c->sched, c->nsched, dmax);
   rt_print_trace();
 }
